@@ -1,4 +1,5 @@
 import PRV.Proofs.Session
+import PRV.Model.WorkerBook
 /-
 C04 — Every accepted share is credited exactly once, to the right parties.
 Theorems about the submit path of `Model/Session.lean`, for every session state, every share and
@@ -195,6 +196,113 @@ theorem rejected_no_credit_history (s : Sess) (xs : List Sub) :
         have l := (ledgers pow s x.1 x.2.1 x.2.2 r h).2 ha
         exact ⟨l.2.2.2.2.2.1, l.2.2.2.2.2.2⟩
       · exact ih r0.s r e ha
+
+/-! ### the worker-name total across connections -/
+
+namespace Book
+open PRV.Model.WorkerBook
+
+/-- what happens to the per-worker-name record during normal operation: a connection under a name,
+or a share credited to a name (`Reset` belongs to the buyer's purchase start, C10) -/
+inductive BookOp where
+  | connect (w : String)
+  | submit (w : String) (diff now : Int)
+
+def bookStep (b : Book) : BookOp → Book
+  | .connect w => onConnect b w
+  | .submit w d t => onSubmit b w d t
+
+/-- the work credited to `w` by a history -/
+def credited (w : String) : List BookOp → Int
+  | [] => 0
+  | .submit w' d _ :: rest => (if w' = w then d else 0) + credited w rest
+  | .connect _ :: rest => credited w rest
+
+def total (b : Book) (w : String) : Int := (totalWork b w).getD 0
+
+theorem load_initRec (b : Book) (w w' : String) :
+    ((load (initRec b w) w').map (·.work)).getD 0 = ((load b w').map (·.work)).getD 0 := by
+  unfold initRec
+  split
+  · rfl
+  · rename_i h
+    unfold load
+    rw [List.find?_append]
+    cases hf : List.find? (fun x => x.1 = w') b with
+    | some r => simp
+    | none =>
+      by_cases e : w = w'
+      · subst e; simp
+      · simp [e]
+
+/-- **A connection never changes any worker-name total** — the record of a name outlives the
+connection: a reconnecting rig, a second rig, another miner of the same contract add to one total. -/
+theorem connect_keeps_totals (b : Book) (w w' : String) : total (onConnect b w) w' = total b w' := by
+  unfold total totalWork onConnect
+  exact load_initRec b w w'
+
+theorem load_map_other (b : Book) (f : String × Rec → String × Rec) (w' : String)
+    (hk : ∀ e, (f e).1 = e.1) :
+    load (b.map f) w' = (b.find? (·.1 = w')).map (fun e => (f e).2) := by
+  unfold load
+  induction b with
+  | nil => rfl
+  | cons e rest ih =>
+    simp only [List.map_cons, List.find?_cons, hk]
+    by_cases h : e.1 = w'
+    · simp [h]
+    · simp only [h, decide_false]; exact ih
+
+theorem submit_total (b : Book) (w w' : String) (d t : Int) :
+    total (onSubmit b w d t) w' = total b w' + (if w = w' then d else 0) := by
+  have hi := load_initRec b w w'
+  have hpres : (load (initRec b w) w).isSome := by
+    unfold initRec
+    split
+    · assumption
+    · unfold load; rw [List.find?_append]
+      cases hf : List.find? (fun x => x.1 = w) b <;> simp
+  unfold total totalWork onSubmit
+  rw [load_map_other _ _ _ (by intro e; by_cases h : e.1 = w <;> simp [h])]
+  unfold load at hi hpres ⊢
+  cases hf : List.find? (fun x => x.1 = w') (initRec b w) with
+  | none =>
+    rw [hf] at hi
+    by_cases e : w = w'
+    · subst e; rw [hf] at hpres; simp at hpres
+    · simp only [Option.map_none, Option.getD_none, e, if_false] at hi ⊢; omega
+  | some r =>
+    rw [hf] at hi
+    have hr : r.1 = w' := by simpa using List.find?_some hf
+    simp only [Option.map_some, Option.getD_some] at hi ⊢
+    by_cases e : w = w'
+    · subst e; simp only [hr, if_true]; omega
+    · have : ¬ r.1 = w := fun x => e (x.symm.trans hr)
+      simp only [this, if_false, e]; omega
+
+/-- **Exactly once to the worker-name total, over every history** of connections and shares of any
+length, under any number of connections per name: the total of a name is what it was plus the sum
+of the difficulties credited to that name — never less (a reconnection loses nothing), never more. -/
+theorem worker_total_history (b : Book) (ops : List BookOp) (w : String) :
+    total (ops.foldl bookStep b) w = total b w + credited w ops := by
+  induction ops generalizing b with
+  | nil => simp [credited]
+  | cons op ops ih =>
+    rw [List.foldl_cons, ih]
+    cases op with
+    | connect w0 =>
+      show total (onConnect b w0) w + _ = _
+      rw [connect_keeps_totals]; rfl
+    | submit w0 d t =>
+      show total (onSubmit b w0 d t) w + _ = _
+      rw [submit_total]
+      show _ = total b w + ((if w0 = w then d else 0) + credited w ops)
+      omega
+
+example : total ([BookOp.submit "a" 10 1, .submit "a" 10 2, .connect "a", .submit "a" 10 3].foldl bookStep []) "a" = 30 := by
+  decide
+
+end Book
 
 /-! ### tasks -/
 
